@@ -344,6 +344,19 @@ def apply_worker(part, cells, codes):
                     part.fail("apply4:%d" % code, "apply on homogeneous (N,4) of %s disagrees with (N,3)" % symm.canonical_string(op), case)
                 if not (np.abs(a5 - a3).max() <= 0):
                     part.fail("call:%d" % code, "__call__ differs from apply", case)
+                # EVERY point count of an interval (first cell only - application does not involve the cell): the image of the first n points
+                # is the first n rows of the image of all of them, for the (N,3) and the homogeneous form
+                if tuple(cell) == tuple(CELLS[0]) and d3 <= 1e-12:
+                    try:
+                        for n_ in range(1, 301):
+                            part.tr(2)
+                            g3, g4 = np.asarray(s.apply(frac[:n_]), dtype=float), np.asarray(s.apply(hom[:n_]), dtype=float)
+                            if g3.shape != (n_, 3) or g4.shape[0] != n_ or not (np.abs(g3 - a3[:n_]).max() <= 1e-14) or not (np.abs(g4[:, :3] - a3[:n_]).max() <= 1e-14):
+                                part.fail("apply-count:%s" % ("n>=32" if n_ >= 32 else "n<32"), "apply of %s on the first %d of %d points is not the first %d rows of the image of all of them"
+                                          % (symm.canonical_string(op), n_, len(frac), n_), case)
+                                break
+                    except Exception as e:
+                        part.fail("apply-count-raise", "apply of %s on a prefix of the point set raised %r" % (symm.canonical_string(op), e), case)
                 # degenerate point sets: one point, the origin alone (its image is the translation), two origins, one generic point
                 for dname, P in (("one origin", np.zeros((1, 3))), ("two origins", np.zeros((2, 3))), ("one point", frac[3:4].copy()), ("origin as homogeneous point", np.array([[0.0, 0.0, 0.0, 1.0]]))):
                     part.tr()
